@@ -10,6 +10,7 @@ import TerwayModel.Driver.Datapath
 import TerwayModel.Driver.Webhook
 import TerwayModel.Driver.Daemon
 import TerwayModel.Driver.Pool
+import TerwayModel.Driver.Ipam
 /-
 `drv`: reads one operation per line (`<model>.<op> arg…`), prints one canonical line per input.
 Malformed or unknown lines print `bad-op` — never a default value.
@@ -41,6 +42,7 @@ def dispatch (st : St) (line : String) : St × String :=
     | ["nc", op] => (st, (NetConfD.step op args).getD "bad-op")
     | ["cfg", op] => (st, (JsonD.step op args).getD "bad-op")
     | ["cni", op] => (st, (JsonD.chainStep op args).getD "bad-op")
+    | ["ip", op] => (st, (IpamD.step op args).getD "bad-op")
     | ["pl", op] =>
       match PoolD.step st.pl op args with
       | some (t, o) => ({ st with pl := t }, o)
